@@ -312,6 +312,8 @@ def run(ck):
                     if cs is not None:
                         return cs[k] if len(cs) == 2 else None
                     a_ = t_.single_atom()
+                    if isinstance(a_, T.App) and a_.op == "stack" and isinstance(a_.args[0], tuple) and len(a_.args[0]) == 2 and a_.args[1] == 0:
+                        return a_.args[0][k]  # torch.stack((re, im)) along the leading axis
                     if isinstance(a_, T.App) and a_.op == "t":
                         x_ = a_.args[0].single_atom() if isinstance(a_.args[0], T.Poly) else None
                         if isinstance(x_, T.Sym) and x_.name.startswith("file("):
